@@ -33,7 +33,15 @@ def separate_tag_blocks(text: str) -> str:
     for i, ln in enumerate(lines):
         if i > 0 and lines[i - 1].strip():
             prev = lines[i - 1]
-            if (tag_only(prev) and blockish(ln)) or (blockish(prev) and tag_only(ln)):
+            # the block above a tag line may span several lines (a list item with continuation lines)
+            block_above = False
+            for k in range(i - 1, -1, -1):
+                if not lines[k].strip() or tag_only(lines[k]):
+                    break
+                if blockish(lines[k]):
+                    block_above = True
+                    break
+            if (tag_only(prev) and blockish(ln)) or (block_above and tag_only(ln)):
                 out.append("")
         out.append(ln)
     return "\n".join(out)
